@@ -1008,7 +1008,7 @@ func init() {
 		ID: "C17", Level: "exploration",
 		Rule:        "generated histories over six genesis shapes (standard families; 98..106 candidates with many equal stakes around rank 100 and one validator far down the ranking; 70..90 eligible candidates with equal stakes around rank 64, stakes of exactly 1000 BIP and 1000 BIP minus one pip, a giant stake that rounds other powers to zero; a validator with 1000+ delegators and an offline candidate with exactly 1000 delegators, with pending genesis updates equal to / one pip below / above the smallest stake) driven by the state-aware generator with staking transactions weighted up plus hand-made delegations around the smallest stake of full candidates (just above, equal, larger, the smallest holder tops up while a newcomer brings exactly the next smallest value); one evaluation = one recalculation (InitChain or an EndBlock that returned validator updates) whose resulting set, powers, per-stake conservation, removals and waitlist moves were compared with the reference; distinct = set classes (eligible <=/> 64, tie at the cut), limit classes (>100, exactly 100, removal, validator kept), slot classes (kinds of losers, incoming took a slot, full without kicks), power raised to 1",
 		Assumptions: []string{"the state right before EndBlock is read through the candidates' own export, waitlist and frozen-fund accessors after the last DeliverTx", "total_bip_stake and per-stake bip values of custom coins are taken as exported (their computation is not part of this property); losers in custom coins are not ranked", "the Tendermint validator set is the accumulation of the returned updates"},
-		Quick:       40, Thorough: 640, MinEval: 250, MinDistinct: 14,
+		Quick:       40, Thorough: 400, MinEval: 250, MinDistinct: 14,
 		Post: func(total *WorkerResult) {
 			RequireSeen(total, "set: end-block eligible>64", "limit: candidate beyond rank 100 removed, stakes frozen", "limit: current validator ranked beyond 100 kept",
 				"slots: incoming stake took a slot of a full candidate", "slots: incoming loser smaller than every survivor", "slots: existing loser", "power: raised to 1")
